@@ -260,7 +260,7 @@ def gates_vs_expm(ctx, quick):
 # ------------------------------------------------------------------------------------------------------------- apply_gate_
 def lattices(rng):
     import yastn.tn.fpeps as fpeps
-    dims = rng.choice([(1, 2), (2, 1), (2, 2), (1, 3), (3, 1), (3, 2), (2, 3)])
+    dims = rng.choice([(1, 2), (2, 1), (2, 2), (1, 3), (3, 1), (3, 2), (2, 3), (2, 3), (3, 2), (2, 3)])      # the two-dimensional 6-site lattices more often
     boundary = 'cylinder' if (dims[0] >= 2 and rng.random() < 0.3) else 'obc'
     return fpeps.SquareLattice(dims=dims, boundary=boundary), dims, boundary
 
@@ -321,7 +321,7 @@ def apply_gate_cases(ctx, quick, n_cases=None, seeds=None):
         glist = []
         ok = True
         # on the largest lattices, sometimes: a hopping-like gate on EVERY nearest-neighbour bond (random order), so that every bond carries odd sectors
-        cover = N >= 6 and rng.random() < 0.4
+        cover = N >= 6 and boundary == 'obc' and not purification and rng.random() < 0.7      # (9+ MPO gates on a purification or across a seam: dimensions overflow)
         if cover:
             up, dn_ = {'SpinlessFermions': ('cp', 'c'), 'SpinfulFermions': ('cpu', 'cu'), 'Spin12': ('sp', 'sm')}[fam]
             bonds_ = list(geometry.bonds())
